@@ -17,6 +17,7 @@
     digits, where Go prints the shortest round-tripping decimal instead of the exact one, or
     non-terminating expansions, which are truncated) are outside the domain of [fmt_dec]. *)
 From Coq Require Import String Ascii ZArith QArith Bool Arith List.
+From GT Require Import Model.Newick Spec.NewickSpec.
 Import ListNotations.
 Local Close Scope Q_scope.
 Local Open Scope string_scope.
@@ -301,3 +302,10 @@ Definition fmt_go (q : Q) : string :=
     | Some v => let sign : string := if n <? 0 then "-" else "" in (sign ++ fmt_dec v)%string
     | None => fmt_dec q'
     end.
+
+(** x is a number of this model of strconv: its text is a clean token (non-empty, no
+    metacharacter, blank or '/') that reads back as x *)
+Definition numokC (x : Q) : bool :=
+  let s := fmt_go x in
+  negb (String.eqb s "") && forall_chars num_char s && numericC s &&
+  match parse_numC s with Some y => Qeq_bool y x | None => false end.
